@@ -34,7 +34,9 @@ import (
 	"sync"
 	"time"
 
+	"go.opentelemetry.io/collector/component"
 	"go.opentelemetry.io/collector/component/componenttest"
+	"go.opentelemetry.io/collector/config/configauth"
 	"go.opentelemetry.io/collector/config/configcompression"
 	"go.opentelemetry.io/collector/config/confighttp"
 )
@@ -218,8 +220,55 @@ func (e *env) server(max int64, enabled []string) (string, error) {
 	return u, nil
 }
 
-func (e *env) client(enc string, level int) (*http.Client, error) {
-	key := enc + "|" + strconv.Itoa(level)
+// signer: a client authenticator extension of the "request signing" kind.  It sits where confighttp puts the auth round
+// tripper (innermost: it sees the request the compression layer produced), obtains a fresh copy of the payload with
+// req.GetBody -- the documented way to read a request body without consuming it -- hashes it into a header and sends the
+// request on with that copy as its body.  What the compression layer announces (encoding, length) and what GetBody
+// returns must be the same bytes (seeded change C16-7 kept the caller's GetBody, i.e. the uncompressed payload).
+type signer struct{}
+
+func (signer) Start(context.Context, component.Host) error { return nil }
+func (signer) Shutdown(context.Context) error              { return nil }
+func (signer) RoundTripper(base http.RoundTripper) (http.RoundTripper, error) {
+	return rtFunc(func(req *http.Request) (*http.Response, error) {
+		if req.GetBody == nil || req.Body == nil || req.Body == http.NoBody {
+			return base.RoundTrip(req)
+		}
+		b, err := req.GetBody()
+		if err != nil {
+			return nil, err
+		}
+		data, err := io.ReadAll(b)
+		if err != nil {
+			return nil, err
+		}
+		sum := sha256.Sum256(data)
+		r2 := req.Clone(req.Context())
+		r2.Header.Set("X-Verif-Payload-Sha256", fmt.Sprintf("%x", sum[:8]))
+		_ = req.Body.Close()
+		r2.Body = io.NopCloser(bytes.NewReader(data))
+		return base.RoundTrip(r2)
+	}), nil
+}
+
+type clientInconsistent struct{ what string }
+
+func (c clientInconsistent) Error() string { return "client produced an inconsistent request: " + c.what }
+
+type rtFunc func(*http.Request) (*http.Response, error)
+
+func (f rtFunc) RoundTrip(r *http.Request) (*http.Response, error) { return f(r) }
+
+var signerID = component.MustNewID("signer")
+
+type signerHost struct{ component.Host }
+
+func (signerHost) GetExtensions() map[component.ID]component.Component {
+	return map[component.ID]component.Component{signerID: signer{}}
+}
+
+func (e *env) client(enc string, level int, signed bool) (*http.Client, error) {
+	key := enc + "|" + strconv.Itoa(level) + "|" + strconv.FormatBool(signed)
 	e.mu.Lock()
 	defer e.mu.Unlock()
 	if c, ok := e.clients[key]; ok {
@@ -238,7 +287,12 @@ func (e *env) client(enc string, level int) (*http.Client, error) {
 			return nil, err
 		}
 	}
-	c, err := cfg.ToClient(context.Background(), componenttest.NewNopHost(), componenttest.NewNopTelemetrySettings())
+	var host component.Host = componenttest.NewNopHost()
+	if signed {
+		cfg.Auth = &configauth.Authentication{AuthenticatorID: signerID}
+		host = signerHost{host}
+	}
+	c, err := cfg.ToClient(context.Background(), host, componenttest.NewNopTelemetrySettings())
 	if err != nil {
 		return nil, err
 	}
@@ -383,7 +437,7 @@ func (e *env) runOne(p planLine, seed int64) (outLine, error) {
 	n := sizeOf(p.Size, p.Max)
 	body := makeBody(p.Kind, n, seed*1000003+int64(p.ID))
 	want := sha256.Sum256(body)
-	c, err := e.client(p.Enc, p.Level)
+	c, err := e.client(p.Enc, p.Level, p.ID%3 == 1) // every third request goes through a signing authenticator
 	if err != nil {
 		return outLine{}, fmt.Errorf("client %s/%d: %w", p.Enc, p.Level, err)
 	}
@@ -394,7 +448,27 @@ func (e *env) runOne(p planLine, seed int64) (outLine, error) {
 	// 1. wire length, measured with the same client against a server without the middleware
 	cid := fmt.Sprintf("c%d", p.ID)
 	chunked := p.Framing == "chunked"
-	if _, err := e.doKeep(c, e.capURL, cid, p.Enc, body, chunked); err != nil {
+	_, err = e.doKeep(c, e.capURL, cid, p.Enc, body, chunked)
+	for k := 0; err != nil && !strings.Contains(err.Error(), "with Body length") && k < 3; k++ {
+		c.CloseIdleConnections() // a connection incident (another request broke the shared keep-alive connection): once more
+		time.Sleep(20 * time.Millisecond)
+		_, err = e.doKeep(c, e.capURL, cid, p.Enc, body, chunked)
+	}
+	if err != nil {
+		// net/http refuses to transmit a request whose declared length and body disagree.  Reproduced three times against the
+		// plain capture server this is not a network incident: the client built by confighttp produced an inconsistent
+		// request from a valid body (reported to the check as such; the request never reaches any handler).
+		if strings.Contains(err.Error(), "with Body length") {
+			again := 0
+			for k := 0; k < 3; k++ {
+				if _, e2 := e.doKeep(c, e.capURL, fmt.Sprintf("%s-r%d", cid, k), p.Enc, body, chunked); e2 != nil && strings.Contains(e2.Error(), "with Body length") {
+					again++
+				}
+			}
+			if again >= 1 { // (a repeat can succeed when the transport happens to send before it compares the lengths)
+				return outLine{}, clientInconsistent{fmt.Sprintf("enc=%s level=%d signed=%v body=%s/%s n=%d: %v", p.Enc, p.Level, p.ID%3 == 1, p.Size, p.Kind, n, err)}
+			}
+		}
 		return outLine{}, fmt.Errorf("capture request failed: %w", err)
 	}
 	e.cap.mu.Lock()
@@ -548,7 +622,15 @@ func main() {
 	}
 	bw := bufio.NewWriter(w)
 	bad := 0
+	cf, _ := os.Create(os.Args[3] + ".clientfail")
+	defer cf.Close()
 	for i := range out {
+		var ci clientInconsistent
+		if errors.As(errs[i], &ci) {
+			b, _ := json.Marshal(map[string]any{"id": plan[i].ID, "what": ci.what})
+			cf.Write(append(b, '\n'))
+			continue
+		}
 		if errs[i] != nil {
 			bad++
 			fmt.Fprintf(os.Stderr, "case %d could not be run: %v\n", plan[i].ID, errs[i])
